@@ -43,19 +43,20 @@ theorem run_append (e : Enum) (K : Kern α) (st : St α) (h1 h2 : List (Ev α)) 
 
 /-- the state after a history, in closed form -/
 theorem run_state (e : Enum) (K : Kern α) (st : St α) (h : List (Ev α)) :
-    (run e K st h).1 = (match lastSet h with | none => st | some o => step e K (fresh K st.caps) o) := by
+    (run e K st h).1 = fromLastSet e K st h := by
   induction h generalizing st with
   | nil => rfl
   | cons ev t ih =>
     cases ev with
     | set o =>
-      simp only [run, lastSet]
+      simp only [run, fromLastSet, lastSet]
       rw [ih]
+      unfold fromLastSet
       cases hl : lastSet t with
       | none => simp only []; exact step_forgets e K st o
       | some o' => simp only [step_caps]
-    | get r => simp only [run, lastSet]; exact ih st
-    | copy => simp only [run, lastSet]; exact ih st
+    | get r => simp only [run, fromLastSet, lastSet]; exact ih st
+    | copy => simp only [run, fromLastSet, lastSet]; exact ih st
 
 theorem lineCaps_ne_zero (e : Enum) (he : e = geod ∨ e = geodx) (caps : Nat) : lineCaps e caps ≠ 0 := by
   intro h
